@@ -143,6 +143,21 @@ func inventory(o *lib.Out) {
 		}
 		return xs
 	}())), lib.L(lib.LS(bs), lib.LS(prot)))
+	// the panic-site inventory: the model recomputes the unguarded sites and the discipline verdict
+	ung, same := t.PanicVerdict()
+	var us []lib.T
+	for _, u := range ung {
+		us = append(us, lib.NI(u))
+	}
+	o.Case("panic-sites", len(t.Panics) > 0, t.PanicTerm(), lib.L(lib.LS(us), lib.Bool(len(ung) == 0 && same)))
+	o.Info["panic_sites"] = len(t.Panics)
+	if len(ung) > 0 {
+		var lines []string
+		for _, u := range ung {
+			lines = append(lines, t.Panics[u].Describe())
+		}
+		o.Info["panic_sites_not_guarded"] = lines
+	}
 	o.Info["access_sites"] = len(t.Accesses)
 	o.Info["protection_per_location"] = summary
 	o.Info["translator_notes"] = t.Notes
@@ -211,6 +226,16 @@ func runChild(o *lib.Out, f lib.Flags, dur time.Duration, workers int) {
 		case "XVMON":
 			if len(parts) == 3 {
 				o.Monitor(parts[1], caseT, strings.ReplaceAll(parts[2], "\\n", "\n"))
+			}
+		case "XVCASE": // XVCASE <kind> <nontrivial 0|1> <input term> <observed output term>
+			if ps := strings.SplitN(line, "\t", 5); len(ps) == 5 {
+				in, err1 := parseTerm(ps[3])
+				out, err2 := parseTerm(ps[4])
+				if err1 != nil || err2 != nil {
+					o.Monitor("child-died", caseT, fmt.Sprintf("unparsable case line from the child (%v %v): %s", err1, err2, clip(line, 300)))
+				} else {
+					o.Case(ps[1], ps[2] == "1", in, out)
+				}
 			}
 		case "XVINFO":
 			if len(parts) >= 2 {
@@ -654,6 +679,7 @@ func mon(name, detail string) {
 
 func child(seed uint64, dur time.Duration, workers int) {
 	// a slice of the budget goes to the rounds aimed at the root's child table (see rootOverlap); the rest is the stress
+	runTreeScenarios() // forced schedules of the actor-tree machine (tree.go): a second at most
 	roBudget := dur * 3 / 20
 	if roBudget > 45*time.Second {
 		roBudget = 45 * time.Second
@@ -939,6 +965,9 @@ func child(seed uint64, dur time.Duration, workers int) {
 	// the tree is only required to be consistent when nothing is in progress (a child that is being released is
 	// legitimately in one table and not in the other for a moment)
 	problems := checkTree(root, nodes)
+	if quiescent {
+		snapCase("tree-snapshot:stress", root, nodes)
+	}
 	if len(problems) > 0 && quiescent {
 		mon("tree", fmt.Sprintf("at quiescence registry / children / parent disagree:\n%s", strings.Join(problems, "\n")))
 	}
@@ -1107,7 +1136,7 @@ func rootOverlap(seed uint64, budget time.Duration) {
 			v := victims[len(victims)-1]
 			victims = victims[:len(victims)-1]
 			sys.Kill(v.ref, false, "root-overlap surplus")
-			waitFor(5*time.Second, func() bool { return v.a.killedAt.Load() != 0 })
+			waitFor(5*time.Second, func() bool { return roReleased(sys, v) })
 		}
 		if !waitFor(5*time.Second, func() bool {
 			for _, v := range victims {
@@ -1220,6 +1249,7 @@ func rootOverlap(seed uint64, budget time.Duration) {
 		// the tree monitor: registry <-> children <-> parent, and exactly the expected top-level population
 		root, nodes, _, _ := actor.XVRaceSnapshot(sys)
 		problems := checkTree(root, nodes)
+		snapCase("tree-snapshot:root-overlap", root, nodes) // the model's consistency check must give the Go-side verdict
 		want := map[string]bool{}
 		for _, v := range fresh {
 			want[v.ref.GetPath()] = true
@@ -1265,7 +1295,7 @@ func rootOverlap(seed uint64, budget time.Duration) {
 		rest := fresh[min(keep, len(fresh)):]
 		if !waitFor(5*time.Second, func() bool {
 			for _, v := range rest {
-				if v.a.killedAt.Load() == 0 {
+				if !roReleased(sys, v) {
 					return false
 				}
 			}
@@ -1320,6 +1350,16 @@ func rootOverlap(seed uint64, budget time.Duration) {
 		"root_overlap_children_of_root_histogram": fmt.Sprint(histK), "root_overlap_actors_spawned": len(everyone), "root_overlap_wall_s": time.Since(t0).Seconds(),
 	})
 	fmt.Printf("XVINFO\t%s\n", js)
+}
+
+// roReleased: the killed top-level actor has COMPLETED its release - it saw its own OnKilled, its registration is deleted and
+// the root has handled its notice (its reference is gone from the root's child table). killedAt alone is set inside the
+// actor's OnKilled behaviour, i.e. BEFORE the registry delete and the notice: a round that only waited for it could take its
+// snapshot while an actor killed in the previous round's clean-up was still (consistently) registered and in the table - a
+// state that is not quiescent, reported by the tree monitor as "not one of the live top-level actors" (false alarm seen once
+// in a thorough run on a busy machine, after /repo 3f0f6ad lengthened that stretch by a second futures clean-up).
+func roReleased(sys *actor.System, v roLive) bool {
+	return v.a.killedAt.Load() != 0 && !actor.XVRaceRegisteredIs(sys, v.ref) && !actor.XVRaceRootChildIs(sys, v.ref)
 }
 
 func dedup(xs []string) []string {
